@@ -36,7 +36,7 @@ type capMsg struct {
 type capCluster struct {
 	r        *rand.Rand
 	replicas []*capReplica
-	byID     map[uint64]*capReplica
+	byID     map[[2]uint64]*capReplica      // (GroupId, replica id)
 	queues   map[[2]uint64][]raftpb.Message // per directed node pair, FIFO (a stream is ordered)
 	links    [][2]uint64
 	// route pushes m through the codec of the stream (fromNode -> toNode) and returns what the receiver decodes
@@ -44,10 +44,18 @@ type capCluster struct {
 	Stats map[string]int
 }
 
-func replicaID(g int, node uint64) uint64 { return uint64(g+1)*10 + node }
+// Replica ids are allocated per partition: every group uses the same small ids
+// (here the node id), so the groups two nodes share differ only in GroupId and
+// name, as in production. One group in three keeps ids of its own (replaced members).
+func replicaID(g int, node uint64) uint64 {
+	if g%3 == 2 {
+		return uint64(g+1)*10 + node
+	}
+	return node
+}
 
 func newCapCluster(r *rand.Rand, nGroups int, route func(fromNode, toNode uint64, m raftpb.Message) (raftpb.Message, bool)) *capCluster {
-	c := &capCluster{r: r, byID: map[uint64]*capReplica{}, queues: map[[2]uint64][]raftpb.Message{}, route: route, Stats: map[string]int{}}
+	c := &capCluster{r: r, byID: map[[2]uint64]*capReplica{}, queues: map[[2]uint64][]raftpb.Message{}, route: route, Stats: map[string]int{}}
 	lg := &raft.DefaultLogger{Logger: log.New(ioutil.Discard, "", 0)}
 	for g := 0; g < nGroups; g++ {
 		var peers []raft.Peer
@@ -75,7 +83,7 @@ func newCapCluster(r *rand.Rand, nGroups int, route func(fromNode, toNode uint64
 			}
 			rp := &capReplica{rn: rn, st: st, id: id, node: n, gidx: g}
 			c.replicas = append(c.replicas, rp)
-			c.byID[id] = rp
+			c.byID[[2]uint64{cfg.Group.GroupId, id}] = rp
 		}
 	}
 	return c
@@ -108,7 +116,7 @@ func (c *capCluster) processReady(rp *capReplica) {
 			}
 		}
 		for _, m := range rd.Messages {
-			dst := c.byID[m.To]
+			dst := c.byID[[2]uint64{m.ToGroup.GroupId, m.To}]
 			if dst == nil {
 				continue
 			}
@@ -185,7 +193,7 @@ func (c *capCluster) run(steps int) {
 			for ; n > 0 && len(q) > 0; n-- {
 				m := q[0]
 				q = q[1:]
-				if dst := c.byID[m.To]; dst != nil && !dst.cut {
+				if dst := c.byID[[2]uint64{m.ToGroup.GroupId, m.To}]; dst != nil && !dst.cut {
 					dst.rn.Step(m)
 					c.Stats["delivered"]++
 				}
